@@ -372,6 +372,107 @@ fn check_convert(p: &Prepared, src: &str, dst: &str) -> V {
     }
 }
 
+/// async builders against the sync ones
+fn check_async(p: &Prepared, code: &str) -> V {
+    use futures::TryStreamExt;
+    let recs: Vec<&dyn vcf::variant::Record> = p.recs.iter().map(|r| r as &dyn vcf::variant::Record).collect();
+    let bytes = match g(&format!("write-{code}"), std::panic::AssertUnwindSafe(|| write_generic(code, &p.header, &recs)))? {
+        Ok(b) => b,
+        Err(e) => return bad(format!("write-{code}-error"), format!("{e}")),
+    };
+    // sync-written stream through the async autodetecting reader (whatever compression it has)
+    let got = g(&format!("async-read-{code}"), {
+        let bytes = bytes.clone();
+        std::panic::AssertUnwindSafe(move || {
+            crate::common::block_on(async move {
+                let mut r = variant::r#async::io::reader::Builder::default()
+                    .build_from_reader(&bytes[..])
+                    .await
+                    .map_err(|e| ("build".to_string(), e))?;
+                let header = r.read_header().await.map_err(|e| ("read_header".to_string(), e))?;
+                let mut lines = Vec::new();
+                {
+                    let mut rs = Box::pin(r.records());
+                    while let Some(rec) = rs.try_next().await.map_err(|e| (format!("record#{}", lines.len()), e))? {
+                        lines.push(canon_line(&header, rec.as_ref()).map_err(|e| ("canon".to_string(), e))?);
+                    }
+                }
+                Ok::<_, (String, io::Error)>(lines)
+            })
+        })
+    })?;
+    let got = match got {
+        Ok(l) => l,
+        Err((stage, e)) => return bad(format!("async-read-{code}-error"), format!("{stage} {} {e}", nv::errkind(&e))),
+    };
+    if let Some(d) = first_diff(&p.canon, &got) {
+        return bad(format!("async-read-{code}-differs-from-sync"), d);
+    }
+    // async writer: it has no shutdown/flush, so all that can be observed is what reaches the sink
+    let (f, k) = fmt_of(code);
+    let out = g(&format!("async-write-{code}"), {
+        std::panic::AssertUnwindSafe(|| {
+            crate::common::block_on(async {
+                let sink = crate::common::AsyncSink::default();
+                let mut w = variant::r#async::io::writer::Builder::default().set_format(f).set_compression_method(k).build_from_writer(sink.clone());
+                w.write_header(&p.header).await?;
+                for r in &recs {
+                    w.write_record(&p.header, *r).await?;
+                }
+                drop(w);
+                let b = sink.0.lock().unwrap().clone();
+                Ok::<_, io::Error>(b)
+            })
+        })
+    })?;
+    let out = match out {
+        Ok(b) => b,
+        Err(e) => return bad(format!("async-write-{code}-error"), format!("{} {e}", nv::errkind(&e))),
+    };
+    match check_stream(p, code, &out, "c") {
+        Ok(()) => Ok(()),
+        Err((tag, d)) => {
+            // cause re-derived from the input: the async variant writer offers no way to flush its
+            // BufWriter / finish its BGZF stream, so the sink holds a strict prefix of the stream
+            let complete = g("write", std::panic::AssertUnwindSafe(|| write_generic_as(f, k, &p.header, &recs)))?.unwrap_or_default();
+            if out.len() < complete.len().max(1) && (k.is_some() || complete.starts_with(&out)) {
+                bad("async-variant-writer-cannot-finish", format!("{code}: {} of about {} bytes reached the sink ({tag})", out.len(), complete.len()))
+            } else {
+                bad(format!("async-write-{code}-{tag}"), d)
+            }
+        }
+    }
+}
+
+/// the complete stream for (format, compression), built from the specific writers
+fn write_generic_as(f: Format, k: Option<CompressionMethod>, header: &vcf::Header, recs: &[&dyn vcf::variant::Record]) -> io::Result<Vec<u8>> {
+    use std::io::Write;
+    let mut raw = Vec::new();
+    match f {
+        Format::Vcf => {
+            let mut w = vcf::io::Writer::new(&mut raw);
+            w.write_header(header)?;
+            for r in recs {
+                w.write_variant_record(header, *r)?;
+            }
+        }
+        Format::Bcf => {
+            let mut w = bcf::io::Writer::from(&mut raw);
+            w.write_header(header)?;
+            for r in recs {
+                w.write_variant_record(header, *r)?;
+            }
+        }
+    }
+    if k.is_some() {
+        let mut w = noodles_bgzf::io::Writer::new(Vec::new());
+        w.write_all(&raw)?;
+        w.finish()
+    } else {
+        Ok(raw)
+    }
+}
+
 pub const RDRS: [&str; 12] = ["c", "b1", "b2", "b3", "b4", "b5", "b8", "b64", "s1", "t1", "s2", "s3"];
 
 pub fn generate(rng: &mut Rng, tier: &str, w: &mut CaseWriter) {
@@ -402,6 +503,12 @@ pub fn generate(rng: &mut Rng, tier: &str, w: &mut CaseWriter) {
             }
         }
     }
+    for code in FMTS {
+        for i in 0..(if thorough { 12 } else { 3 }) {
+            let n = if i == 0 { 0 } else { rng.range(1, 12) };
+            w.push("vas", vec![code.into(), rng.next().to_string(), n.to_string(), (i % 3).to_string()]);
+        }
+    }
     let reps = if thorough { 12 } else { 2 };
     for src in FMTS {
         for dst in FMTS {
@@ -419,6 +526,10 @@ pub fn run(c: &Case) -> Obs {
             let p = prepare(c.u(1), c.u(2) as usize, c.u(3))?;
             check_roundtrip(&p, &c.args[0], &c.args[4])
         }
+        "vas" => {
+            let p = prepare(c.u(1), c.u(2) as usize, c.u(3))?;
+            check_async(&p, &c.args[0])
+        }
         "vcv" => {
             let p = prepare(c.u(2), c.u(3) as usize, c.u(4))?;
             check_convert(&p, &c.args[0], &c.args[1])
@@ -426,7 +537,7 @@ pub fn run(c: &Case) -> Obs {
         _ => bad("harness-unknown-kind", c.kind.clone()),
     })();
     let nontrivial = match c.kind.as_str() {
-        "vrt" => true,
+        "vrt" | "vas" => true,
         _ => c.u(3) > 0,
     };
     Obs::ok("-", nontrivial).with_verdict(r)
